@@ -328,6 +328,7 @@ impl Ipc for Sock {
                     }
                     let n = d.len().min(1024).min(buf.len());
                     buf[..n].copy_from_slice(&d[..n]);
+                    lk(&self.sh).log.push(Ev::S(format!("RX {} {}", a, n)));
                     return Ok((n, a));
                 }
             }
